@@ -1,6 +1,6 @@
 mod with_positions;
 
-use std::{iter::FusedIterator, ops::Range, slice};
+use std::{io, iter::FusedIterator, ops::Range, slice};
 
 use noodles_core::Position;
 
@@ -19,16 +19,89 @@ impl<'c> ReferenceSequence<'c> {
         Self(src)
     }
 
+    // The reader validates that the bases of a record are in the reference sequence (see
+    // `validate`), i.e., the following are only out of range for records that are not read from a
+    // slice.
+
     fn at(&self, position: Position) -> u8 {
+        const MISSING: u8 = b'N';
         let i = usize::from(position) - 1;
-        self.0[i]
+        self.0.get(i).copied().unwrap_or(MISSING)
     }
 
     fn slice(&self, range: Range<Position>) -> &'c [u8] {
         let start = usize::from(range.start) - 1;
         let end = usize::from(range.end) - 1;
-        &self.0[start..end]
+        self.0.get(start..end).unwrap_or_default()
     }
+}
+
+/// Validates that the sequence of a record can be built from its features and reference sequence.
+///
+/// The bases that are not covered by a feature and the reference bases of substitutions must be in
+/// the reference sequence. This expects the features to be ordered and not to overlap, which is
+/// validated when they are read.
+pub(super) fn validate(
+    reference_sequence: Option<&[u8]>,
+    features: &[Feature<'_>],
+    alignment_start: Position,
+    read_length: usize,
+) -> io::Result<()> {
+    fn validate_reference_bases(
+        reference_sequence: Option<&[u8]>,
+        start: Position,
+        len: usize,
+    ) -> io::Result<()> {
+        if len == 0 {
+            return Ok(());
+        }
+
+        let Some(reference_sequence) = reference_sequence else {
+            return Err(io::Error::new(
+                io::ErrorKind::InvalidData,
+                "missing reference sequence",
+            ));
+        };
+
+        let start = usize::from(start) - 1;
+
+        if start
+            .checked_add(len)
+            .is_some_and(|end| end <= reference_sequence.len())
+        {
+            Ok(())
+        } else {
+            Err(io::Error::new(
+                io::ErrorKind::InvalidData,
+                "invalid record: bases are out of range of the reference sequence",
+            ))
+        }
+    }
+
+    let mut features = WithPositions::new(features, alignment_start);
+    let (mut last_reference_position, mut last_read_position) = features.positions();
+
+    while let Some(((reference_position, read_position), feature)) = features.next() {
+        let len = usize::from(read_position) - usize::from(last_read_position);
+        validate_reference_bases(reference_sequence, last_reference_position, len)?;
+
+        if matches!(feature, Feature::Substitution { .. }) {
+            validate_reference_bases(reference_sequence, reference_position, 1)?;
+        }
+
+        (last_reference_position, last_read_position) = features.positions();
+    }
+
+    let len = (read_length + 1)
+        .checked_sub(usize::from(last_read_position))
+        .ok_or_else(|| {
+            io::Error::new(
+                io::ErrorKind::InvalidData,
+                "invalid record: features are out of range of the read",
+            )
+        })?;
+
+    validate_reference_bases(reference_sequence, last_reference_position, len)
 }
 
 pub(super) struct Iter<'r, 'c: 'r> {
@@ -80,16 +153,16 @@ impl<'r: 'c, 'c: 'r> Iterator for Iter<'r, 'c> {
         loop {
             match self.state {
                 State::Next => {
-                    self.state = if let Some(((reference_position, read_position), feature)) =
+                    self.state = if let Some(((reference_position, _), feature)) =
                         self.features.next()
                     {
                         let bases =
                             if let Some(reference_sequence) = self.reference_sequence.as_ref() {
                                 reference_sequence
                                     .slice(self.last_reference_position..reference_position)
-                            } else if read_position != self.last_read_position {
-                                panic!("next: missing reference sequence");
                             } else {
+                                // The bases between features are missing without a reference
+                                // sequence. This is validated by the reader.
                                 &[]
                             };
 
@@ -111,12 +184,6 @@ impl<'r: 'c, 'c: 'r> Iterator for Iter<'r, 'c> {
 
                             State::Finish(bases.iter())
                         }
-                    } else if usize::from(self.last_read_position) != self.read_length + 1 {
-                        panic!(
-                            "next: missing reference sequence: {} != {}",
-                            usize::from(self.last_read_position),
-                            self.read_length
-                        );
                     } else {
                         State::Done
                     };
@@ -151,7 +218,9 @@ impl<'r: 'c, 'c: 'r> Iterator for Iter<'r, 'c> {
 
                                 State::Base(raw_read_base)
                             } else {
-                                panic!("missing reference sequence (substitution)");
+                                // The reference base is missing without a reference sequence.
+                                // This is validated by the reader.
+                                State::Base(u8::from(Base::N))
                             }
                         }
                         Feature::Insertion { bases, .. } => State::Bases(bases.iter()),
@@ -182,7 +251,9 @@ impl<'r: 'c, 'c: 'r> Iterator for Iter<'r, 'c> {
     }
 
     fn size_hint(&self) -> (usize, Option<usize>) {
-        let n = self.read_length - (usize::from(self.last_read_position) - 1);
+        let n = self
+            .read_length
+            .saturating_sub(usize::from(self.last_read_position) - 1);
 
         match &self.state {
             State::Next => (n, Some(n)),
